@@ -159,6 +159,8 @@ def _source_kind(it):
         return "dataclass fields"
     if T.is_call_to(it, f"{C.INSP}.get_type_hints", f"{C.INSP}.cached_type_hints", "typing.get_type_hints"):
         return "type hints"
+    if it[0] == "call" and it[1][0] == "attr" and it[1][2] in ("items", "keys") and T.is_call_to(it[1][1], f"{C.INSP}.get_type_hints", f"{C.INSP}.cached_type_hints", "typing.get_type_hints"):
+        return "type hints"
     if it[0] == "attr" and it[2] == "__slots__":
         return "__slots__"
     if it[0] == "call" and it[1][0] == "attr" and it[1][2] == "items" and T.is_call_to(it[1][1], "builtins.vars"):
@@ -192,7 +194,10 @@ def r18_4(prog, rep):
         elt = c[2]
         name = elt[1][0] if elt[0] == "tuple" else (elt[1] if elt[0] == "pair" else elt)
         want = ("not", ("call", ("attr", name, "startswith"), (("const", "_"),), ()))
-        ok = want in c[4]
+        conds = []
+        for cd in c[4]:
+            conds += list(cd[2]) if cd[0] == "boolop" and cd[1] == "and" else [cd]
+        ok = want in conds
         found[kind] = found.get(kind, True) and ok
     for kind in ("dataclass fields", "type hints", "__slots__", "vars()"):
         if kind not in found:
@@ -277,6 +282,28 @@ def r18_8(prog, rep, rule="R18.8"):
     rep.check(ok, rule, f.qualname, f.loc, "the pairs test accepts 2-element tuples and lists and rejects mappings, sets and text", "; ".join(why) or "no pairs test found", detail="pairs-test")
 
 
+def r18_9(prog, rep, rule="R18.9"):
+    """Public *fields*: a ClassVar annotation of a plain / __slots__ class is no field (dataclasses.fields() already leaves
+    them out for dataclasses): the names taken from the type hints must be filtered by the ClassVar test."""
+    f = prog.functions.get(f"{C.SERDES}._make_fields_iterator")
+    if f is None:
+        rep.undecided(rule, f"{C.SERDES}.get_items_iter", "", "field iterator factory not found")
+        return
+    hinted = []
+    for p in P.paths_of(prog, f):
+        for e in p.events:
+            if e[0] == "assign" and e[2][0] == "comp":
+                c = e[2]
+                src = c[3][0][0]
+                if T.contains(src, lambda x: T.is_call_to(x, f"{C.INSP}.get_type_hints", f"{C.INSP}.cached_type_hints", "typing.get_type_hints")):
+                    filt = any(T.contains(cd, lambda x: T.is_call_to(x, f"{C.INSP}.isclassvartype")) for cd in c[4])
+                    hinted.append(filt)
+    if not hinted:
+        rep.held(rule, f.qualname, f.loc, "field names are not taken from type hints", nontrivial=False)
+        return
+    rep.check(all(hinted), rule, f.qualname, f.loc, "names taken from the type hints leave ClassVar annotations out", "every public type hint of a plain / __slots__ class is taken for a field, ClassVar annotations included: iteritems(Plain(1)) yields ('REGISTRY', 3), marshal writes it to the wire and unmarshal passes it to __init__ (TypeError: unexpected keyword argument)", detail="classvar")
+
+
 def r18_5(prog, rep):
     iv = prog.function(f"{C.SERDES}.itervalues")
     val = ("param", iv.params[0])
@@ -332,6 +359,8 @@ def run(prog: Program, rep: Report, tier: str):
     rep.rule("R18.4", "public-name filter on every attribute source", floor=4)
     rep.rule("R18.5", "itervalues projects the same strategy; strategy order and arms", floor=5)
     rep.rule("R18.6", "no mutation of the argument", floor=5)
+    rep.rule("R18.9", "ClassVar annotations are not fields", floor=1)
+    r18_9(prog, rep)
     rep.rule("R18.8", "pairs are recognised by any 2-element collection", floor=1)
     rep.rule("R18.7", "attribute-source precedence: hints/fields before __slots__", floor=1)
     r18_1(prog, rep)
